@@ -4,7 +4,7 @@ from mirlib import *
 from paths import *
 from shape import *
 from ranges import *
-import r_unchecked, r_surr, r_lookahead, r_decclass, scan
+import r_unchecked, r_surr, r_lookahead, r_decclass, scan, r_kernel
 from r_writers import T37
 
 MANIFEST = {
@@ -26,8 +26,14 @@ MANIFEST = {
             'constrain those units to complete valid sequences (exact interval sets per unit, the table tests interpreted through the '
             'relation proven in D2); (S2) the all-clear (len) is returned only with the distance to the end proven zero; (S3) an index short '
             'of the end is returned only when the path excludes every valid continuation (invalid lead, failed trail test, or proven '
-            'truncation). The iterator kernels in front of them (as_chunks strides/tails and their consumed counter) are decided by R-KERNEL '
-            'where listed; simdutf8 is trusted to agree with core::str.',
+            'truncation). (D6, R-KERNEL/R-STRIDE) the iterator kernels in front of them (ascii_valid_impl = ascii_valid_up_to/validate_ascii, the BMP '
+            'kernel of utf16_valid_up_to, the simd is_str_latin1_impl): the all-clear is reachable only after every part of the '
+            'as_chunks/split_first tree was walked to exhaustion, in buffer order (must-pass-through on the CFG); every continuing iteration '
+            'adds exactly the element width (16/32/1 units, from the iterator item type) to the position counter and an offending unit is '
+            'reported at counter + the position the stride function returned for the current element; a stride function answers None only '
+            'if tests that passed on that path cover all 16/32 units of its source stride (SIMD vectors are traced back to the sub-arrays '
+            'they were loaded from) and reports positions in the second half with the right offset. SIMD lane arithmetic inside the vector '
+            'predicates, core iterator semantics and simdutf8 == core::str are trusted.',
     'note': 'Trusted: rustc MIR and const evaluation, mirx, rule library, Unicode Table 3-7 as transcribed in rules/r_writers.py, simdutf8 == core::str validation.',
     'technique': 'exhaustive obligations over a const-evaluated table + expression-shape matching + exact interval extraction + bounds dataflow + path-sensitive abstract interpretation of the scanner automata (interval products per unit, distance-to-end zone, fixpoint invariants) on MIR',
 }
@@ -276,6 +282,7 @@ def run(rep, facts, tier):
         n, d = r_unchecked.run(rep, f, c, 'R-UNCHECKED', lambda nm: nm.startswith(('utf_8::utf8_valid_up_to', 'utf_8::convert_utf8_to_utf16_up_to_invalid', 'mem::', 'ascii::')))
         rep.floor('R-UNCHECKED', 'unchecked reads in validators', n, 20, c)
         k = r_lookahead.run(rep, f, c, 'R-LOOKAHEAD', lambda nm: nm.startswith('mem::utf16_valid_up_to'))
+        r_kernel.run(rep, f, c, 'R-KERNEL', ['validate'])
         scan.run_specs(rep, f, c, 'R-SCAN', ['utf_8::utf8_valid_up_to', 'utf_8::convert_utf8_to_utf16_up_to_invalid', 'mem::utf16_valid_up_to',
                                              'mem::is_utf8_latin1_impl', 'mem::is_str_latin1_impl'])
     return ('other', MANIFEST['text'], [])
